@@ -7,9 +7,10 @@
     mutex lock_discipline linearizable linearizable_when_free atomic_load_is_load
     deadlock_free nonreentrant_nested_load_deadlocks reentrant_nested_load_completes
     unlocked_store_breaks_wf locked_store_is_setitem code_lock_is_reentrant
-    deadlock_free_for_code
+    deadlock_free_for_code each_load_correct wf_at_quiescence acquisitions_come_from_programs
 -/
 import Genshi.Lemmas.ConcLoad
+import Genshi.Lemmas.ConcSerial
 import Genshi.Lemmas.Lru
 import Genshi.Model.ConcLru
 import Genshi.Gen.Loader
@@ -77,6 +78,38 @@ theorem atomic_load_is_load (c : CCfg) (tid : Tid) (ls ls' : LState) (comp : Lis
     (h : Loader.load c.cfg c.fs ls r = some (ls', res)) :
     atomicLoad c tid ls comp (.mk r key []) = (ls', comp ++ [(tid, r, res)]) :=
   atomicLoad_eq_load c tid ls ls' comp r key res hk h
+
+/-- The loads in the acquisition log are loads of the threads' programs. -/
+theorem acquisitions_come_from_programs (c : CCfg) (ls0 : LState) (progs : List (List CReq))
+    (sched : List Tid) (t : Tid) (q : CReq)
+    (h : (t, q) ∈ (exec c (G.init ls0 progs) sched).acqLog) : q ∈ progs.getD t [] :=
+  (minv_exec (minv_init ls0 progs) sched).log (t, q) h
+
+/-- Every call returns what C15's `load` returns at its place in the acquisition order: when the
+    lock is free, the shared state and the results are those of C15's `load` applied to the
+    requests one after the other in that order (programs without nested loads). -/
+theorem each_load_correct (c : CCfg) (ls0 : LState) (h0 : ls0.lock = 0) (progs : List (List CReq))
+    (hflat : ∀ t, ∀ q ∈ progs.getD t [], Flat c q)
+    (sched : List Tid) (hfree : (exec c (G.init ls0 progs) sched).owner = none) :
+    ((exec c (G.init ls0 progs) sched).ls, (exec c (G.init ls0 progs) sched).completed) =
+      seqLoads c.cfg c.fs ls0 [] (exec c (G.init ls0 progs) sched).acqLog := by
+  rw [linearizable_when_free c ls0 h0 progs sched hfree]
+  apply serial_flat
+  intro p hp
+  exact hflat p.1 p.2 ((minv_exec (minv_init ls0 progs) sched).log p hp)
+
+/-- … hence C15's history invariant (bounded LRU cache of distinct keys, cached templates
+    coherent with their files, fresh identities, lock free) holds whenever the lock is free —
+    in particular after quiescence. -/
+theorem wf_at_quiescence (c : CCfg) (ls0 : LState) (clock : Nat) (hi : Inv ⟨c.fs, clock, ls0⟩)
+    (progs : List (List CReq)) (hflat : ∀ t, ∀ q ∈ progs.getD t [], Flat c q)
+    (sched : List Tid) (hfree : (exec c (G.init ls0 progs) sched).owner = none) :
+    Inv ⟨c.fs, clock, (exec c (G.init ls0 progs) sched).ls⟩ := by
+  have h := each_load_correct c ls0 hi.lock progs hflat sched hfree
+  have : (exec c (G.init ls0 progs) sched).ls =
+      (seqLoads c.cfg c.fs ls0 [] (exec c (G.init ls0 progs) sched).acqLog).1 := by rw [← h]
+  rw [this]
+  exact seqLoads_inv c.cfg c.fs clock ls0 [] _ hi
 
 /-- No deadlock: with the re-entrant lock, as long as some thread is not finished some thread
     can take a step (nested loads re-acquire the lock they already hold). -/
